@@ -597,3 +597,7 @@ def replay_sweep(obligation=None, model=None, meta=None):
                     'observed': 'the reported spectrum is %.3e away from the spectrum of the state matrix rebuilt from Jacobians evaluated at the same point' % d,
                     'native_cmd': 'contracts/fn_eig.py replay_sweep'}
     return {'confirmed': False, 'tried': n}
+
+replay_sweep.real_system = True       # drives the real program on stock inputs: a crash inside repository code is a confirmed failure
+
+replay_calc_as.real_system = True       # drives the real program on stock inputs: a crash inside repository code is a confirmed failure
